@@ -87,3 +87,68 @@ def error_class(r):
     if p[0] == 'err':
         return 'err:' + p[1] + ':' + p[2].split(':')[0]
     return p[0]
+
+
+ENTRY_POINTS = ['deserialize', 'try_from_slice', 'from_slice', 'deserialize_reader', 'try_from_reader', 'from_reader']
+
+
+def stage_decm(cfg, exe, driver, cases):
+    """cases: [(cid, tid, type, mode, hex)] -- any of the six entry points.
+    Returns records with impl (result without the pulled= field), pulled, model, agree."""
+    strict = '1' if CONFIGS[cfg][1] else '0'
+    lines = [case_line(cid, 'dec', tid, sexp(t), mode, h or '-') for cid, tid, t, mode, h in cases]
+    dlines = [case_line(cid, 'decm', tid, sexp(t), mode, strict, h or '-') for cid, tid, t, mode, h in cases]
+    impl = run_cases(exe, lines)
+    model = run_cases(driver, dlines)
+    out = []
+    for cid, tid, t, mode, h in cases:
+        r = impl.get(cid)
+        pulled = None
+        if r is not None and '\tpulled=' in r:
+            r, p = r.split('\tpulled=')
+            pulled = int(p)
+        rec = {'cid': cid, 'tid': tid, 'type': sexp(t), 'input': h, 'cfg': cfg, 'mode': mode,
+               'impl': r, 'pulled': pulled, 'model': model.get(cid)}
+        rec['agree'] = r is not None and r == rec['model']
+        out.append(rec)
+    return out
+
+
+def encodings(cfg, exe, driver, seed, tier, type_filter=None):
+    """Valid encodings produced by the implementation: [(rec, type, hex)] plus the enc records."""
+    tmap = dict(catmod.catalogue_types())
+    cases = gen_enc_cases(seed, tier, type_filter)
+    recs = stage_enc(cfg, exe, driver, cases)
+    good = []
+    for r in recs:
+        t = tmap[r['tid']]
+        if r['status'] == 'run' and r['impl'].startswith('ok') and can_de(t) and not unbounded_on_hostile_input(t):
+            good.append((r, t, r['impl'].split(' ')[1].replace('-', '')))
+    return recs, good
+
+
+def truncations(h, rng, cap=24):
+    """Proper prefixes of a hex string: all of them when short, else a sample incl. the ends."""
+    n = len(h) // 2
+    if n == 0:
+        return []
+    if n <= cap:
+        ks = list(range(n))
+    else:
+        ks = sorted(set([0, 1, 2, 3, 4, 5, n - 1, n - 2, n - 3, n // 2] + [rng.randrange(n) for _ in range(cap - 10)]))
+    return [h[:2 * k] for k in ks]
+
+
+def corruptions(h, rng, cap=16):
+    """Single-byte corruptions of a hex string."""
+    n = len(h) // 2
+    if n == 0:
+        return []
+    ks = list(range(n)) if n <= cap else sorted(set([0, 1, 2, 3, 4, n - 1] + [rng.randrange(n) for _ in range(cap - 6)]))
+    out = []
+    for k in ks:
+        old = int(h[2 * k:2 * k + 2], 16)
+        new = rng.choice([0, 1, 2, 0x7f, 0x80, 0xff, old ^ 1, (old + 1) & 255])
+        if new != old:
+            out.append(h[:2 * k] + '%02x' % new + h[2 * k + 2:])
+    return out
